@@ -202,6 +202,18 @@ var malformedDocs = []malformedDoc{
 	{"propfind-unparseable", "webdav", "PROPFIND", "coll", xmlHdr + `<D:propfind xmlns:D="DAV:"><D:prop><D:getetag>`, "application/xml"},
 	{"propfind-body-without-xml-type", "webdav", "PROPFIND", "coll", `<D:propfind xmlns:D="DAV:"><D:allprop/></D:propfind>`, "text/plain"},
 	{"proppatch-unparseable", "webdav", "PROPPATCH", "coll", `<<<`, "application/xml"},
+	// the shortest bodies there are: one byte
+	{"propfind-one-byte-not-xml-type", "webdav", "PROPFIND", "coll", "x", "text/plain"},
+	{"propfind-one-byte-not-xml-type", "caldav", "PROPFIND", "coll", "<", "text/plain"},
+	{"propfind-one-byte-not-xml-type", "carddav", "PROPFIND", "coll", "x", "application/octet-stream"},
+	{"propfind-one-byte-not-xml-type", "principal", "PROPFIND", "principal", " ", "text/plain"},
+	{"propfind-one-byte", "webdav", "PROPFIND", "coll", "<", "application/xml"},
+	{"propfind-two-bytes-not-xml-type", "webdav", "PROPFIND", "coll", "xy", "text/plain"},
+	{"mkcol-one-byte", "caldav", "MKCOL", "newcoll", "x", "application/xml"},
+	{"mkcol-one-byte", "carddav", "MKCOL", "newcoll", "<", "text/xml"},
+	{"report-one-byte", "caldav", "REPORT", "coll", "<", "application/xml"},
+	{"report-one-byte", "carddav", "REPORT", "coll", "x", "application/xml"},
+	{"proppatch-one-byte", "webdav", "PROPPATCH", "coll", "<", "application/xml"},
 	{"propfind-none-of-three", "principal", "PROPFIND", "principal", xmlHdr + `<D:propfind xmlns:D="DAV:"/>`, "application/xml"},
 	{"propfind-unparseable", "principal", "PROPFIND", "principal", `<D:propfind`, "application/xml"},
 }
